@@ -584,3 +584,20 @@ Definition example_cases : list c16case :=
     K16 example_env KMethodWrap "var" (Some m) [] [("size", qc_of_Z 3)] (OVal [Some {[ "meter" := q2 ]}] (Some m)) ].
 Lemma model_runs : forallb c16_ok example_cases = true.
 Proof. vm_compute. reflexivity. Qed.
+
+(** * 8. Defect switches: F122 (np.unwrap refused NumPy's keyword period, repaired in /repo) *)
+Definition unwrap_period_case (obs : outcome) : c16case :=
+  K16 [("degree", UI ∅ false)] KFunction "unwrap" None
+      [("p", A1 (SQ {[ "degree" := q1 ]})); ("period", A1 (SNum false))] [] obs.
+Lemma unwrap_period_switch :
+  c16_ok_q (Quirks true) (unwrap_period_case (OErr EType)) = true
+  ∧ c16_ok_q repaired (unwrap_period_case (OVal [Some {[ "degree" := q1 ]}] None)) = true
+  ∧ c16_ok_q repaired (unwrap_period_case (OErr EType)) = false.
+Proof. repeat split; vm_compute; reflexivity. Qed.
+(** a period or discont given as a Quantity must be an angle *)
+Lemma unwrap_quantity_keywords :
+  let m := A1 (SQ {[ "meter" := q1 ]}) in
+  let env := [("degree", UI ∅ false); ("meter", UI {[ "[length]" := q1 ]} false)] in
+  run_registered function_registrations env "unwrap" [("p", A1 (SQ {[ "degree" := q1 ]})); ("period", m)] [] = Err EDim
+  ∧ run_registered function_registrations env "unwrap" [("p", A1 (SQ {[ "degree" := q1 ]})); ("discont", m)] [] = Err EDim.
+Proof. split; vm_compute; reflexivity. Qed.
